@@ -28,7 +28,27 @@ fn area2(a: &Point2, b: &Point2, c: &Point2) -> f64 {
     (b - a).x * (c - a).y - (b - a).y * (c - a).x
 }
 
+/// planar disks without needle triangles (every face angle at least 8 degrees): the property is
+/// about Delaunay-like triangulations and jittered grids
 pub fn planar_disk(rng: &mut Rng) -> Disk {
+    loop {
+        let d = planar_disk_any(rng);
+        let min_angle = d
+            .faces
+            .iter()
+            .map(|f| {
+                let (a, b, c) = (d.pts[f[0] as usize], d.pts[f[1] as usize], d.pts[f[2] as usize]);
+                let ang = |p: Point2, q: Point2, r: Point2| ((q - p).normalize().dot(&(r - p).normalize())).clamp(-1.0, 1.0).acos();
+                ang(a, b, c).min(ang(b, c, a)).min(ang(c, a, b))
+            })
+            .fold(f64::MAX, f64::min);
+        if min_angle.to_degrees() >= 8.0 {
+            return d;
+        }
+    }
+}
+
+fn planar_disk_any(rng: &mut Rng) -> Disk {
     let nx = rng.int(3, 9) as usize;
     let ny = rng.int(3, 9) as usize;
     let h = *rng.pick(&[1.0, 0.1, 7.0]);
@@ -124,6 +144,15 @@ fn flatten(mesh: &Mesh) -> Option<Result<(Vec<Point2>, Vec<u32>), String>> {
     })
 }
 
+fn accept_tokens(mesh: &Mesh) -> Tok {
+    let mut i = Tok::new();
+    i.n(mesh.vertices().len()).n(mesh.faces().len());
+    for f in mesh.faces() {
+        i.n(f[0] as usize).n(f[1] as usize).n(f[2] as usize);
+    }
+    i
+}
+
 fn edge_list(faces: &[[u32; 3]]) -> Vec<(u32, u32)> {
     let mut e: Vec<(u32, u32)> = vec![];
     for f in faces {
@@ -161,7 +190,12 @@ fn planar(rng: &mut Rng) {
                 let l2 = (uv[a as usize] - uv[b as usize]).norm();
                 worst = worst.max((l3 - l2).abs());
             }
-            v.require(worst <= 1e-6 * size, "flatten.planar_edge_lengths_kept", || format!("worst edge length change {worst:e} (size {size:e}, {} vertices)", d.pts.len()));
+            let min_angle = d.faces.iter().map(|f| {
+                let (a, b, c) = (d.pts[f[0] as usize], d.pts[f[1] as usize], d.pts[f[2] as usize]);
+                let ang = |p: Point2, q: Point2, r: Point2| ((q - p).normalize().dot(&(r - p).normalize())).clamp(-1.0, 1.0).acos();
+                ang(a, b, c).min(ang(b, c, a)).min(ang(c, a, b))
+            }).fold(f64::MAX, f64::min);
+            v.require(worst <= 1e-6 * size, "flatten.planar_edge_lengths_kept", || format!("worst edge length change {worst:e} (size {size:e}, {} vertices, smallest face angle {:.3} deg)", d.pts.len(), min_angle.to_degrees()));
             let neg = d.faces.iter().filter(|f| area2(&uv[f[0] as usize], &uv[f[1] as usize], &uv[f[2] as usize]) <= 0.0).count();
             v.require(neg == 0, "flatten.triangles_keep_positive_orientation", || format!("{neg} of {} triangles are not positively oriented (flip={flip})", d.faces.len()));
             // inputs of the model: connectivity, 3-D vertices, the boundary loop the implementation used
@@ -178,6 +212,9 @@ fn planar(rng: &mut Rng) {
                 o.f(p.x).f(p.y);
             }
         }
+    }
+    if !o.0.is_empty() {
+        emit("flatten.accepts", &accept_tokens(&mesh), Tok::new().b(true), &Verdict::new());
     }
     if d.pts.len() <= 40 && !o.0.is_empty() {
         emit(op, &i, &o, &v);
@@ -277,12 +314,14 @@ fn rejections(rng: &mut Rng) {
         }
     };
     let mut v = Verdict::new();
-    match flatten(&mesh) {
+    let res = flatten(&mesh);
+    let accepted = matches!(res, Some(Ok(_)));
+    match res {
         None => v.require(false, "flatten.terminates", || format!("{name}: no result within 20 s")),
         Some(Err(e)) => v.require(!e.starts_with("PANIC"), "flatten.rejects_without_panic", || format!("{name}: {e}")),
         Some(Ok(_)) => v.require(false, "flatten.rejects_non_disk", || format!("{name}: accepted")),
     }
-    emit_oracle_only("flatten.reject", &Tok::new(), &Tok::new(), &v);
+    emit("flatten.accepts", &accept_tokens(&mesh), Tok::new().b(accepted), &v);
 }
 
 fn uv_round_trip(rng: &mut Rng) {
@@ -326,11 +365,26 @@ fn uv_round_trip(rng: &mut Rng) {
 
 pub fn run(rng: &mut Rng, n: usize) {
     for _ in 0..n {
-        match rng.below(10) {
-            0..=4 => planar(rng),
-            5 | 6 => curved(rng),
-            7 | 8 => rejections(rng),
-            _ => uv_round_trip(rng),
+        let which = rng.below(10);
+        let state = rng.0;
+        let r = guarded(|| {
+            let mut local = Rng(state);
+            match which {
+                0..=4 => planar(&mut local),
+                5 | 6 => curved(&mut local),
+                7 | 8 => rejections(&mut local),
+                _ => uv_round_trip(&mut local),
+            }
+            local.0
+        });
+        match r {
+            Ok(st) => rng.0 = st,
+            Err(e) => {
+                let mut v = Verdict::new();
+                v.require(false, "flatten.no_panic", || format!("case kind {which}: {e}"));
+                emit_oracle_only("flatten.panic", &Tok::new(), &Tok::new(), &v);
+                let _ = rng.next();
+            }
         }
     }
 }
